@@ -216,7 +216,8 @@ def run(F, rep):
                 for c in rp:
                     root = strip(chain_root(c))
                     rt = render(root)
-                    if a is not None and a.get('k') == 'Ref' and rt == a.get('n'):
+                    _deref = lambda t_: t_.replace('(', '').replace(')', '').lstrip('*').strip()    # `*it`, `(*it)` -> `it`
+                    if a is not None and a.get('k') == 'Ref' and (rt == a.get('n') or _deref(rt) == a.get('n')):
                         good = True   # (*result)->removeParent()
                         det = 'removeParent on *%s' % rt
                         # must happen before the erase invalidates the iterator
@@ -228,7 +229,7 @@ def run(F, rep):
                     if ri is not None:
                         rtxt = render(ri)
                         # element copied from the same container position / iterator before the erase
-                        if (rtxt.startswith(render(r)) or (a is not None and a.get('k') == 'Ref' and rtxt == a.get('n'))) and f.cfg().node_dominates(ri, n):
+                        if (rtxt.startswith(render(r)) or (a is not None and a.get('k') == 'Ref' and (rtxt == a.get('n') or _deref(rtxt) == a.get('n')))) and f.cfg().node_dominates(ri, n):
                             good = True
                             det = 'removeParent on the element saved from `%s`' % rtxt
                             break
@@ -239,7 +240,7 @@ def run(F, rep):
                     if root is not None and root.get('k') == 'Ref' and root.get('dk') == 'local':
                         # assigned (not initialised) from *result or from the same container position, before the erase
                         asg = [b for b in f.walk() if b.get('k') == 'Call' and b.get('opc') == '=' and b['c'][0].get('k') == 'Ref' and b['c'][0].get('d') == root['d']]
-                        if any(((a is not None and render(strip(b['c'][1])) == a.get('n')) or render(strip(b['c'][1])).startswith(render(r))) and f.cfg().node_dominates(b, n) for b in asg):
+                        if any(((a is not None and (render(strip(b['c'][1])) == a.get('n') or _deref(render(strip(b['c'][1]))) == a.get('n'))) or render(strip(b['c'][1])).startswith(render(r))) and f.cfg().node_dominates(b, n) for b in asg):
                             good = True
                             det = 'removeParent on the element saved before the erase'
                             break
@@ -434,8 +435,15 @@ def run(F, rep):
                 if nullres.source_kind(l) in ('owningComponent', 'owningModel', 'parent') and nullres.source_kind(r) in ('owningComponent', 'owningModel', 'parent'):
                     n_q += 1
                     key = '%s|%s' % (g.name, render(b)[:70])
-                    if g.name in Q_EXEMPT and not (g.name == 'areEntitiesSiblings' and {nullres.source_kind(l), nullres.source_kind(r)} != {'parent'}):
-                        rep.exempt('C09.Q1', key, Q_EXEMPT[g.name])
+                    gname = g.name
+                    if gname not in Q_EXEMPT:
+                        # a helper split off from an exempt function (all of its call sites are there, same file) does the same job
+                        cs_ = nullres._call_sites_of(F, g.key)
+                        owners = {h_.name for h_, c_ in cs_ if h_.file == g.file}
+                        if cs_ and len(owners) == 1 and all(h_.file == g.file for h_, c_ in cs_) and next(iter(owners)) in Q_EXEMPT:
+                            gname = next(iter(owners))
+                    if gname in Q_EXEMPT and not (gname == 'areEntitiesSiblings' and {nullres.source_kind(l), nullres.source_kind(r)} != {'parent'}):
+                        rep.exempt('C09.Q1', key, Q_EXEMPT[gname])
                         continue
                     # a sibling conjunct (or a dominating condition) tests one of the two lookups against null
                     texts = {render(l), render(r), render(b['c'][0]), render(b['c'][1])}
